@@ -263,6 +263,9 @@ def parse_hops(s):
         op = dict(k=p[0], at=int(p[1]), key=int(p[2]))
         if p[0] == "s":
             op.update(rcode=int(p[3]), tc=p[4] == "1", ttls=[] if p[5] == "x" else [int(x) for x in p[5].split("_")])
+        if p[0] == "a":      # direct MemoryCache.Store: storedTime = now - age, expireTime = now + remain
+            op.update(age=int(p[3]), remain=int(p[4]), nx=p[5] == "1", rcode=0, tc=False,
+                      ttls=[] if p[6] == "x" else [int(x) for x in p[6].split("_")])
         ops.append(op)
     return ops
 
@@ -469,6 +472,152 @@ def c08_hist_classify(line, res):
     return "hits=%s misses=%s" % ("0" if h == 0 else "1-2" if h < 3 else "3+", "0" if m == 0 else "1-2" if m < 3 else "3+")
 
 
+# ---------------- storeat (round 2): direct MemoryCache.Store with storedTime in the past (redis promotion path)
+def c08_storeat_oracle(line, res):
+    _LAST["storeat"] = line
+    return c08_storeat_oracle1(line, res)
+
+
+def c08_storeat_oracle1(line, res):
+    """the property on what was served, independent of the model: a hit comes from an earlier store of the key; an
+    entry stored with (storedTime, expireTime) is not served at expireTime + 2 s or later WHATEVER storedTime was;
+    served TTLs <= max 1 (ttl - whole seconds since storedTime)"""
+    if res.startswith("HARNESS-ERROR"):
+        return None
+    f = gens.fields(line)
+    ops = parse_hops(f["ops"])
+    toks = res.split(" ")
+    if len(toks) != len(ops):
+        return None
+    mx = int(f["maxttl"])
+    for i, (op, tok) in enumerate(zip(ops, toks)):
+        if op["k"] != "g" or not tok.startswith("H"):
+            continue
+        src = int(tok[1:].split(":")[0])
+        if not (0 <= src < i) or ops[src]["k"] not in ("s", "a") or ops[src]["key"] != op["key"]:
+            return "get #%d served a message no Store of this key supplied (%s)" % (i, tok)
+        so = ops[src]
+        if so["k"] == "s":
+            if so["tc"]:
+                return "get #%d served a truncated response (store #%d)" % (i, src)
+            L = prop_lifetime_ms(mx, so["rcode"], so["ttls"])
+            age = 0
+        else:
+            L = so["remain"]
+            age = so["age"]
+        late = op["at"] - so["at"] - L          # ms after expireTime
+        if late - SLACK >= 2000:
+            return ("get #%d at +%d ms served the entry of store #%d %d ms after its expireTime (storedTime %d ms "
+                    "before the store, expireTime %d ms after it; 2 s allowance)" % (i, op["at"], src, late, age, L))
+        got = [int(x) for x in tok.split(":")[1].split("_")] if tok.split(":")[1] else []
+        if len(got) != len(so["ttls"]):
+            return "get #%d: record count differs from the stored response" % i
+        dmin = max(0, (op["at"] - so["at"] + age - SLACK) // 1000)
+        for t0, t1 in zip(so["ttls"], got):
+            if t1 > max(1, t0 - dmin):
+                return "get #%d: served TTL %d > max 1 (%d - %d whole seconds since storedTime)" % (i, t1, t0, dmin)
+    return None
+
+
+STOREAT_AGES = [0, 0, 400, 2400, 4500, 10500, 61300, 3600400, 86400600, 31536000500]
+STOREAT_REMAIN = [400, 700, 1300, 1300, 1700, 2300, 2600, 3400]
+STOREAT_TTLS = [[3, 3, 7], [300], [60, 4294967295], [2, 100000], [0, 50]]
+
+
+def storeat_ok_times(ops):
+    """served TTLs must not hinge on < 200 ms of scheduling: every (store, later op of the key) pair keeps the time since
+    the entry's storedTime away from whole seconds"""
+    for i, a in enumerate(ops):
+        if a["k"] == "g":
+            continue
+        age = a.get("age", 0)
+        for b in ops[i + 1:]:
+            if b["key"] != a["key"]:
+                continue
+            fr = (b["at"] - a["at"] + age) % 1000
+            if fr < 200 or fr > 800:
+                return False
+            fr = (b["at"] - a["at"]) % 1000          # and the store-to-op distance itself (expiry side)
+            if fr < 150 or fr > 850:
+                return False
+    return True
+
+
+def fmt_ops2(ops):
+    out = []
+    for o in ops:
+        if o["k"] == "a":
+            out.append("a.%d.%d.%d.%d.%d.%s" % (o["at"], o["key"], o["age"], o["remain"], 1 if o["nx"] else 0,
+                                                  "_".join(str(t) for t in o["ttls"]) if o["ttls"] else "x"))
+        else:
+            out.append(fmt_ops([o]))
+    return ",".join(out)
+
+
+def c08_storeat_gen(rng, tier):
+    """histories on the real clock in which entries enter the memory cache through MemoryCache.Store with a storedTime in
+    the past (0.4 s .. 1 year) and 0.4 - 3.4 s of lifetime left, mixed with ordinary cacheCtl.Store calls (a promotion is
+    set-if-absent: it must not displace them) and lookups before expireTime, within 2 s after it and later"""
+    out = []
+    want = budget(tier, 60, 1000)
+    n = tries = 0
+    while n < want and tries < want * 400:
+        tries += 1
+        at = 0
+        ops = []
+        stores = 0
+        for i in range(rng.randrange(3, 10)):
+            key = rng.choice([1, 1, 1, 2])
+            r = rng.random()
+            if i == 0 or (r < 0.3 and stores < 5):
+                ops.append(dict(k="a", at=at, key=key, age=rng.choice(STOREAT_AGES), remain=rng.choice(STOREAT_REMAIN),
+                                nx=rng.random() < 0.7, ttls=rng.choice(STOREAT_TTLS)))
+                stores += 1
+            elif r < 0.4 and stores < 5:
+                ops.append(rand_store(rng, at, key))
+                stores += 1
+            else:
+                ops.append(dict(k="g", at=at, key=key))
+            at += rng.choice([250, 300, 450, 500, 700, 750, 1250, 1500, 1750, 2250, 2500])
+            if at > 7000:
+                break
+        # most histories get a probe well after expireTime + 2 s of one of their direct stores (that is where an entry
+        # whose lifetime was counted from storedTime, or restarted, would still be served)
+        if rng.random() < 0.8:
+            a = rng.choice([o for o in ops if o["k"] == "a"])
+            probe = a["at"] + a["remain"] + 2000 + SLACK + rng.choice([150, 400, 900, 1600])
+            ops.append(dict(k="g", at=probe, key=a["key"]))
+            ops.sort(key=lambda o: o["at"])           # stable: ops at equal instants keep their order
+            if any(x["at"] == y["at"] for x, y in zip(ops, ops[1:])):
+                continue
+        def probed(i, a):
+            return any(b["k"] == "g" and b["key"] == a["key"] for b in ops[i + 1:])
+        if not any(o["k"] == "a" and probed(i, o) for i, o in enumerate(ops)) or not storeat_ok_times(ops):
+            continue
+        out.append("a%d maxttl=%d ops=%s" % (n, rng.choice([0, 0, 0, 2]), fmt_ops2(ops)))
+        n += 1
+    return out
+
+
+def c08_storeat_classify(line, res):
+    ops = parse_hops(gens.fields(line)["ops"])
+    toks = res.split(" ")
+    cls = set()
+    if len(toks) == len(ops):
+        for i, (op, tok) in enumerate(zip(ops, toks)):
+            if op["k"] != "g":
+                continue
+            last = None
+            for j in range(i):
+                if ops[j]["key"] == op["key"] and ops[j]["k"] == "a":
+                    last = ops[j]
+            if last is None:
+                continue
+            late = op["at"] - last["at"] - last["remain"]
+            cls.add(("hit" if tok.startswith("H") else "miss") + ("-before-expire" if late < 0 else "-within-2s" if late < 2000 else "-after-expire+2s"))
+    return ",".join(sorted(cls)) or "no-get-after-storeat"
+
+
 # ---------------- routerhist (real router, real upstream over TCP, scripted upstream server)
 BEH_L = dict(nx=30000, nd=30000, sf=1000, rf=5000)
 
@@ -621,6 +770,10 @@ PROPS["C08"] = dict(
              compare=retrying_compare("routerhist", c08_router_oracle1),
              classify=c08_router_classify, shards=4,
              nontrivial=lambda l, r: r.startswith("U") or r.startswith("C"), timeout=600),
+        dict(name="storeat", gen=c08_storeat_gen, oracle=c08_storeat_oracle,
+             compare=retrying_compare("storeat", c08_storeat_oracle1),
+             classify=c08_storeat_classify, shards=4,
+             nontrivial=lambda l, r: "H" in r or "M" in r, timeout=600),
     ],
     rule="policy: the real initCache + cacheCtl.Store on a real MemoryCache, read back with cacheCtl.Get: every rcode 0..15 "
          "x {record-less, OPT only, TTL catalogue incl. 0, 1, 2^31, 2^32-1}, 17 maximum-TTL settings (default, caps, "
